@@ -423,5 +423,273 @@ class AliasSpace(Subspace):
         return res
 
 
+# ---------------------------------------------------------------------------------------------
+# the remaining public operations (composite helpers, several masks, kernels, EMAs, nanops, array
+# helpers, facade): every array argument in every container of its role, same depth-3 history
+# ---------------------------------------------------------------------------------------------
+MASK2 = [1, 0, 1, 1, 0, 1]          # global selection; MASK has rows outside it (rows 1 and 4)
+CODES = [2, 0, -1, 1, 0, 2]
+
+
+def _extra_ops():
+    from groupby_lib import GroupBy, emas, nanops
+    from groupby_lib import util as U
+    from groupby_lib.groupby import numba as nbm
+    from groupby_lib.groupby.core import crosstab
+
+    G = lambda a: GroupBy(a["keys"])  # noqa
+    t = {}
+    t["subset_ratio"] = (("keys", "values", "mask", "mask2"),
+                         lambda a: G(a).subset_ratio(a["values"], a["mask"], a["mask2"]))
+    t["subset_ratio_count"] = (("keys", "values", "mask", "mask2"),
+                               lambda a: G(a).subset_ratio(a["values"], a["mask"], a["mask2"], agg_func="count"))
+    t["ratio"] = (("keys", "values", "values2", "mask"),
+                  lambda a: G(a).ratio(a["values"], a["values2"], mask=a["mask"]))
+    t["density"] = (("keys", "values", "mask"), lambda a: G(a).density(a["values"], mask=a["mask"]))
+    t["density_sizes"] = (("keys", "mask"), lambda a: G(a).density(mask=a["mask"]))
+    t["agg_two"] = (("keys", "values", "values2", "mask"),
+                    lambda a: G(a).agg([a["values"], a["values2"]], ["sum", "max"], mask=a["mask"]))
+    t["sum_margins"] = (("keys", "values", "mask"), lambda a: G(a).sum(a["values"], mask=a["mask"], margins=True))
+    t["two_keys_sum"] = (("keys", "keys2", "values", "mask"),
+                         lambda a: GroupBy([a["keys"], a["keys2"]]).sum(a["values"], mask=a["mask"]))
+    t["two_keys_margins"] = (("keys", "keys2", "values"),
+                             lambda a: GroupBy([a["keys"], a["keys2"]]).sum(a["values"], margins=True))
+    t["crosstab"] = (("keys", "keys2", "values", "mask"),
+                     lambda a: crosstab(a["keys"], a["keys2"], a["values"], mask=a["mask"]))
+    t["crosstab_margins"] = (("keys", "keys2", "values"),
+                             lambda a: crosstab(a["keys"], a["keys2"], a["values"], margins=True))
+    t["class_sum"] = (("keys", "values", "mask"), lambda a: GroupBy.sum(a["keys"], a["values"], mask=a["mask"]))
+    t["copy_sum"] = (("keys", "values"), lambda a: GroupBy(G(a)).sum(a["values"]))
+    t["group_nearby_members"] = (("keys", "values"), lambda a: G(a).group_nearby_members(a["values"], 1.0))
+    t["sum@pos"] = (("keys", "values", "pos"), lambda a: G(a).sum(a["values"], mask=a["pos"]))
+    t["first@pos"] = (("keys", "values", "pos"), lambda a: G(a).first(a["values"], mask=a["pos"]))
+    t["ema_timed_masked"] = (("keys", "values", "times", "mask"),
+                             lambda a: G(a).ema(a["values"], halflife="2s", times=a["times"], mask=a["mask"]))
+    t["emas.ema"] = (("values",), lambda a: emas.ema(a["values"], alpha=0.5))
+    t["emas.ema_timed"] = (("values", "times"), lambda a: emas.ema(a["values"], halflife="2s", times=a["times"]))
+    t["emas.ema_grouped"] = (("codes", "values", "mask"),
+                             lambda a: emas.ema_grouped(a["codes"], 3, a["values"], alpha=0.5, mask=a["mask"]))
+    t["emas.ema_grouped_timed"] = (("codes", "values", "times"),
+                                   lambda a: emas.ema_grouped(a["codes"], 3, a["values"], halflife="2s",
+                                                              times=a["times"]))
+    for k in ("sum", "mean", "min", "first", "last", "count"):
+        t["numba.group_" + k] = (("codes", "values", "mask"),
+                                 lambda a, f=k: getattr(nbm, "group_" + f)(a["codes"], a["values"], 3, a["mask"]))
+        t["numba.group_" + k + "_T2"] = (("codes", "values", "mask"),
+                                         lambda a, f=k: getattr(nbm, "group_" + f)(a["codes"], a["values"], 3, a["mask"], 2))
+    t["numba.group_sum@pos"] = (("codes", "values", "pos"),
+                                lambda a: nbm.group_sum(a["codes"], a["values"], 3, a["pos"]))
+    t["numba.group_size"] = (("codes", "mask"), lambda a: nbm.group_size(a["codes"], 3, a["mask"]))
+    for k in ("cumsum", "cummin", "cummax"):
+        t["numba." + k] = (("codes", "values", "mask"), lambda a, f=k: getattr(nbm, f)(a["codes"], a["values"], 3, a["mask"]))
+    for k in ("rolling_sum", "rolling_min"):
+        t["numba." + k] = (("codes", "values", "mask"),
+                           lambda a, f=k: getattr(nbm, f)(a["codes"], a["values"], 3, 2, 1, a["mask"]))
+    for k in ("rolling_shift", "rolling_diff"):
+        t["numba." + k] = (("codes", "values", "mask"),
+                           lambda a, f=k: getattr(nbm, f)(a["codes"], a["values"], 3, 1, a["mask"]))
+    for k in ("nansum", "nanmean", "nanmin", "nanmax", "nanvar", "nanstd"):
+        t["nanops." + k] = (("values",), lambda a, f=k: getattr(nanops, f)(a["values"]))
+        t["nanops." + k + "_T2"] = (("values",), lambda a, f=k: getattr(nanops, f)(a["values"], n_threads=2))
+    t["nanops.nansum_2d"] = (("matrix",), lambda a: nanops.nansum(a["matrix"], axis=0))
+    t["nanops.nanmax_2d_T2"] = (("matrix",), lambda a: nanops.nanmax(a["matrix"], axis=1, n_threads=2))
+    t["util.nb_dot"] = (("matrix", "vec"), lambda a: U.nb_dot(a["matrix"], a["vec"]))
+    t["util.bools_to_categorical"] = (("boolframe",), lambda a: U.bools_to_categorical(a["boolframe"]))
+    t["util.pretty_cut"] = (("values", "bins"), lambda a: U.pretty_cut(a["values"], a["bins"]))
+
+    def facade(a, how, frame=True):
+        from groupby_lib.groupby.monkey_patch import install_groupby_fast
+        install_groupby_fast()
+        v = a["values"]
+        obj = pd.DataFrame({"x": v, "y": np.asarray(v) * 2}, copy=False) if frame else \
+            (v if isinstance(v, pd.Series) else pd.Series(v, copy=False))
+        return how(obj.groupby_fast(a["keys"]))
+    for nm, how in (("sum", lambda g: g.sum()), ("cumsum", lambda g: g.cumsum()), ("size", lambda g: g.size()),
+                    ("rolling_sum", lambda g: g.rolling(2, 1).sum()), ("first", lambda g: g.first()),
+                    ("iter", lambda g: {k: v for k, v in g})):
+        t["facade.frame." + nm] = (("keys", "values"), lambda a, h=how: facade(a, h, True))
+        t["facade.series." + nm] = (("keys", "values"), lambda a, h=how: facade(a, h, False))
+    return t
+
+
+ROLE_CONTS = {
+    "keys": ("ndarray", "pd_series", "categorical", "pa_chunked"),
+    "keys2": ("ndarray", "pd_series"),
+    "codes": ("ndarray", "strided", "readonly"),
+    "values": ("ndarray", "strided", "readonly", "pd_series", "pa_chunked"),
+    "values2": ("ndarray", "pd_series"),
+    "mask": ("ndarray", "strided", "pd_series"),
+    "mask2": ("ndarray", "pd_series"),
+    "pos": ("ndarray",),
+    "times": ("ndarray", "pd_series"),
+    "matrix": ("ndarray", "fortran"),
+    "vec": ("ndarray",),
+    "boolframe": ("frame",),
+    "bins": ("ndarray", "list"),
+}
+
+
+def _role_array(role):
+    if role == "keys":
+        return np.array(KEYS, dtype="f8")
+    if role == "keys2":
+        return np.array([1.0, 1.0, 2.0, float("nan"), 2.0, 1.0])
+    if role == "codes":
+        return np.array(CODES, dtype=np.int64)
+    if role == "values":
+        return values_array("f8")
+    if role == "values2":
+        return np.abs(values_array("f8")) + 1.0  # same nullity as `values` (ratio insists on it)
+    if role == "mask":
+        return np.array(MASK, dtype=bool)
+    if role == "mask2":
+        return np.array(MASK2, dtype=bool)
+    if role == "pos":
+        return np.array([5, 0, 3, 0], dtype=np.int64)
+    if role == "times":
+        return O.times_for(N)[0]
+    if role == "matrix":
+        return np.array([[1.0, np.nan, 4.0], [2.0, 8.0, np.nan], [16.0, 32.0, 64.0]])
+    if role == "vec":
+        return np.array([1.0, 2.0, 4.0])
+    if role == "bins":
+        return np.array([0.0, 2.0, 10.0, 100.0])
+    raise ValueError(role)
+
+
+def _role_holder(role, cont):
+    arr = _role_array(role) if role != "boolframe" else None
+    if role == "boolframe":
+        df = pd.DataFrame({"a": [True, False, True], "b": [False, False, True]})
+        return Holder(df, [])
+    if cont == "fortran":
+        a = np.asfortranarray(arr)
+        return Holder(a, [])
+    if cont == "list":
+        lst = arr.tolist()
+        return Holder(lst, [])
+    if role == "keys" and cont == "categorical":
+        return make_input(np.array(["c", "a", None, "b", "a", "c"], dtype=object), cont)
+    return make_input(arr, cont)
+
+
+class ExtraSpace(Subspace):
+    shard = 10
+
+    def __init__(self, tier, seed=0):
+        self.name = "extra-operations"
+        self._cells = None
+
+    def _build(self):
+        if self._cells is None:
+            cells = []
+            for rep in ("contig", "chunkwise"):
+                for name, (roles, _) in _extra_ops().items():
+                    if rep == "chunkwise" and "keys" not in roles:
+                        continue
+                    cells.append((name, None, None, rep))  # all default (first) containers
+                    for r in roles:
+                        for c in ROLE_CONTS[r][1:]:
+                            cells.append((name, r, c, rep))
+            self._cells = cells
+
+    def size(self):
+        self._build()
+        return len(self._cells)
+
+    def warm_indices(self, n):
+        return range(0, n, max(1, n // 60))
+
+    def case(self, i):
+        self._build()
+        name, role, cont, rep = self._cells[i]
+        return dict(op=name, role=role, cont=cont, rep=rep)
+
+    def run(self, case):
+        res = Result()
+        res.nontrivial = True
+        roles, fn = _extra_ops()[case["op"]]
+        seams = env.seams()
+        seams.set(executor=sched.NAMESPACE, threshold=1 if case["rep"] == "chunkwise" else None)
+        sched.set_schedule(sched.Schedule())
+        warnings.simplefilter("ignore")
+        holders = {}
+        for r in roles:
+            cont = case["cont"] if r == case["role"] else ROLE_CONTS[r][0]
+            holders[r] = _role_holder(r, cont)
+        args = {r: h.obj for r, h in holders.items()}
+        before = {r: h.snapshot() for r, h in holders.items()}
+        tag = f"{case['op']}({', '.join(roles)}) {case['role'] or 'all'}={case['cont'] or 'default'} {case['rep']}"
+
+        def call():
+            with contextlib.redirect_stdout(io.StringIO()):
+                return fn(args)
+
+        def check_inputs(stage):
+            for r, h in holders.items():
+                if h.snapshot() != before[r]:
+                    res.fail("input-modified" if stage == "call" else "write-through-to-input",
+                             f"{tag}: {r} changed after {stage}")
+                    return False
+            return True
+
+        def nf(r):
+            try:
+                return gbh.normalise(r).key()
+            except Exception:  # noqa
+                return ("snap", snap(r))
+
+        res.execs += 1
+        try:
+            r1 = call()
+        except Exception as e:  # noqa  rejected combination: inputs must be intact all the same
+            check_inputs("call")
+            res.extra = {"extra_cells_where_the_call_raised": 1,
+                         f"raised[{case['op']}]:{type(e).__name__}": 1}
+            seams.reset()
+            return res
+        if not check_inputs("call"):
+            seams.reset()
+            return res
+        n1 = nf(r1)
+        results = list(r1.values()) if isinstance(r1, dict) else [r1]
+        touched = []
+        import gc
+        for r in results:
+            for nm, a in writable_handles(r):
+                scribble(a)
+                touched.append(nm)
+            if isinstance(r, pd.Series) and len(r):
+                try:
+                    nv = r.to_numpy(copy=True)
+                    nv = nv + 7 if nv.dtype.kind in "iuf" else nv[::-1].copy()
+                    gc.collect()
+                    r.iloc[:] = nv
+                except Exception:  # noqa
+                    pass
+            elif isinstance(r, pd.DataFrame) and len(r):
+                for j in range(r.shape[1]):
+                    try:
+                        nv = r.iloc[:, j].to_numpy(copy=True)
+                        nv = nv + 7 if nv.dtype.kind in "iuf" else nv[::-1].copy()
+                        gc.collect()
+                        r.iloc[:, j] = nv
+                    except Exception:  # noqa
+                        pass
+        if not check_inputs(f"mutating the result ({', '.join(touched) or 'setter'})"):
+            seams.reset()
+            return res
+        res.execs += 1
+        try:
+            n2 = nf(call())
+        except Exception as e:  # noqa
+            n2 = f"raised {type(e).__name__}"
+        if n2 != n1:
+            res.fail("later-call-changed", f"{tag}: a later identical call differs after the first result "
+                                           f"was mutated")
+        seams.reset()
+        return res
+
+
 def subspaces(tier, seed):
-    return [AliasSpace(tier, seed)]
+    return [AliasSpace(tier, seed), ExtraSpace(tier, seed)]
